@@ -52,6 +52,21 @@ def to_term(v):
         return {'k': 'tuple', 'xs': [to_term(x) for x in v]}
     if c is dict:
         return {'k': 'dict', 'kv': [[to_term(a), to_term(b)] for a, b in v.items()]}
+    # instances of subclasses of the JSON types: sanitize / a JSON round trip maps them to the base type
+    if isinstance(v, bool):
+        return {'k': 'other', 'r': c.__name__}
+    if isinstance(v, int):
+        return {'k': 'intS', 'n': num_id(int(v))}
+    if isinstance(v, float):
+        return {'k': 'floatS', 'n': num_id(float(v)), 'r': repr(float(v))}
+    if isinstance(v, str):
+        return {'k': 'strS', 's': str(v)}
+    if isinstance(v, list):
+        return {'k': 'listS', 'xs': [to_term(x) for x in v]}
+    if isinstance(v, tuple):
+        return {'k': 'tupleS', 'xs': [to_term(x) for x in v]}
+    if isinstance(v, dict):
+        return {'k': 'dictS', 'kv': [[to_term(a), to_term(b)] for a, b in v.items()]}
     return {'k': 'other', 'r': c.__name__}
 
 
